@@ -12,6 +12,7 @@ import (
 	_ "verif/internal/props/c08"
 	_ "verif/internal/props/c09"
 	_ "verif/internal/props/c10"
+	_ "verif/internal/props/c11"
 	_ "verif/internal/props/c12"
 	_ "verif/internal/props/c13"
 	_ "verif/internal/props/c14"
